@@ -65,6 +65,10 @@ def ensures_key_match(prog, key):
 
 def check(ctx):
     prog = ctx.prog
+    # the pair on disk is what was written: each of the two files is rewritten whole and flushed before success is reported (write_file's
+    # success-path traces, shared with C02.R1)
+    from .storage_common import durable_write_rule
+    durable_write_rule(ctx, ctx.rule("D1", "[shared with C02] key and certificate files are opened with truncate/create_new, written and flushed"), ("PrivateKey", "Certificate"))
     b = prog.async_body(RC)
     R1 = ctx.rule("R1", "the private key is written only after the download succeeded and no HTTP request follows it before the certificate is written")
     gets = b.calls_to(GETC)
